@@ -48,11 +48,13 @@ class SkyArr(real_np.ndarray):
 
 class UFWcs:
     """WCS as uninterpreted functions; origin o means W_o(p) = W_0(p - o). Records the coordinates it was asked about."""
+    ra_dec_order = True
+
     def __init__(self):
         self.calls = []
         self.wcs = self
 
-    def wcs_pix2world(self, pix, origin, *a):
+    def wcs_pix2world(self, pix, origin, *a, **kw):
         pix = list(pix)
         out = real_np.empty((len(pix), 2), dtype=object)
         for n, p in enumerate(pix):
